@@ -32,11 +32,17 @@ def designated(n, m, modes):
     return acc
 
 
-def one(n, m, modes, n_trials, export=False):
+def one(n, m, modes, n_trials, export=False, stale=None):
     so.reset(fn=so.const_score)
     algs = tuple(so.OPT_CLASSES[i](so.ScriptConfig()) for i in range(n))
     tasks = tuple(so.task0(so.TASK_CLASSES[j]) for j in range(m))
     out = []
+    if stale:
+        # the instances were used stand-alone in another solver mode before being handed to Multitask
+        for a in algs:
+            with contextlib.redirect_stdout(io.StringIO()):
+                a.optimize(tasks[0], mode=stale, workers=3)
+        del so.LOG[:]
     valid = modes is None or all(x in MODES for x in modes)
     shapes = designated(n, m, modes)
     try:
@@ -147,6 +153,13 @@ def _work(args):
                 k += 1
                 for what, d in finds:
                     res.setdefault(what, (d, {'n': n, 'm': m, 'modes': list(modes) if modes else None, 'T': T}))
+                if T == trials[0] and (modes is None or len(modes) <= 3):
+                    for stale in ('thread', 'process'):
+                        for what, d in one(n, m, modes, T, stale=stale):
+                            res.setdefault(what + '|instance-used-before-in-' + stale,
+                                           (d, {'n': n, 'm': m, 'modes': list(modes) if modes else None, 'T': T,
+                                                'stale': stale}))
+                        k += 1
     finally:
         pools.uninstall()
     return k, res
@@ -180,7 +193,10 @@ def replay(case):
     rep = Reporter('C20', 'quick')
     pools.install()
     try:
-        finds = one(case['n'], case['m'], tuple(case['modes']) if case['modes'] else None, case['T'], export=True)
+        finds = one(case['n'], case['m'], tuple(case['modes']) if case['modes'] else None, case['T'],
+                    export=not case.get('stale'), stale=case.get('stale'))
+        if case.get('stale'):
+            finds = [(w + '|instance-used-before-in-' + case['stale'], d) for w, d in finds]
     finally:
         pools.uninstall()
     for what, d in finds:
